@@ -103,6 +103,10 @@ func (sb *schemaBuilder) getTextMarshalerType(typ reflect.Type) (graphql.Type, e
 		Type: "string",
 		Unwrapper: func(source interface{}) (interface{}, error) {
 			i := reflect.ValueOf(source)
+			if !i.IsValid() {
+				// No value at all (a batch resolver left this object out): null.
+				return nil, nil
+			}
 			if i.Kind() == reflect.Ptr && i.IsNil() {
 				return "", nil
 			}
